@@ -1183,8 +1183,15 @@ class Interp:
     def ex_FormattedValue(self, n):
         return self.sym(self.eval(n.value))
 
+    def _site(self, r, n):
+        """remember the first source site of an untagged (hash-consed) operator node"""
+        if isinstance(r, S):
+            SITE_OF.setdefault(r.id, (self.frame.module.relpath, getattr(n, "lineno", 0), getattr(n, "col_offset", 0),
+                                      getattr(n, "end_lineno", 0), getattr(n, "end_col_offset", 0)))
+        return r
+
     def ex_BinOp(self, n):
-        return mk(BINOPS[type(n.op)], self.sym(self.eval(n.left)), self.sym(self.eval(n.right)))
+        return self._site(mk(BINOPS[type(n.op)], self.sym(self.eval(n.left)), self.sym(self.eval(n.right))), n)
 
     def ex_UnaryOp(self, n):
         v = self.sym(self.eval(n.operand))
@@ -1207,7 +1214,7 @@ class Interp:
         parts = []
         for op, c in zip(n.ops, n.comparators):
             right = self.sym(self.eval(c))
-            parts.append(mk(CMPOPS[type(op)], left, right))
+            parts.append(self._site(mk(CMPOPS[type(op)], left, right), n))
             left = right
         return parts[0] if len(parts) == 1 else mk("and", *parts)
 
